@@ -648,6 +648,9 @@ func (env *SpecEnv) call(x *SExpr) Value {
 		if t == nil {
 			env.fail(x, "unknown type "+x.Args[1].Str)
 		}
+		if interiorTypes[typeKey(t)] {
+			return ptrFromTerm(env.evalInt(x.Args[0]), t, types.NewPointer(t))
+		}
 		return Scalar{env.evalInt(x.Args[0]), types.NewPointer(t)}
 	case "ofield":
 		// ofield(x, "pkg.Type.Field.$leaf"): leaf of an exported field of a library struct (see evalSelector)
